@@ -200,7 +200,9 @@ def run(tape: Tape, params: dict) -> Outcome:
     steps.append(("call", release))
     if op.get("after"):
         steps.append(("wait", lambda sc: sc.parser.response is not None, 10.0))
-        steps.append(("send", op["after"]))
+        steps.append(("send", wsp.frame(wsp.OP_TEXT, b"hello")))
+        steps.append(("wait", lambda sc: sc.parser.ws is not None and len(sc.parser.ws.messages) >= 1, 10.0))
+        steps.append(("send", wsp.frame(wsp.OP_CLOSE, wsp.close_payload(1000))))
     steps.append(("wait", done, 10.0))
     script = Script(world, steps, parser, setup=setup)
     script.hold_flush = True  # no SETTINGS ACK / pong in the middle of the client's own opening bytes
